@@ -530,15 +530,15 @@ class PolygonTensor(PolytopeTensor):
                 if np.all(e.dependent_values):
                     # all segments lie in the planes of the polygons
                     return []
-                if isinstance(other, SegmentTensor):
+                # a single polygon or a single segment is kept as it is, only collections are reduced
+                polygons, plane = self, self._plane
+                if plane.free_indices > 0:
+                    plane = cast(PlaneTensor, plane[~e.dependent_values])
+                    polygons = PolygonCollection.from_tensor(self[~e.dependent_values])
+                if other._line.free_indices > 0:
                     other = cast(SegmentTensor, other[~e.dependent_values])
-                result = cast(PlaneTensor, self._plane[~e.dependent_values]).meet(other._line)
-                return list(
-                    result[
-                        PolygonCollection.from_tensor(self[~e.dependent_values]).contains(result)
-                        & other.contains(result)
-                    ]
-                )
+                result = plane.meet(other._line)
+                return list(result[polygons.contains(result) & other.contains(result)])
             else:
                 return list(result[self.contains(result) & other.contains(result)])
 
@@ -548,10 +548,15 @@ class PolygonTensor(PolytopeTensor):
             if np.all(e.dependent_values):
                 # all lines lie in the planes of the polygons
                 return []
+            # a single polygon or a single line is kept as it is, only collections are reduced
+            polygons, plane = self, self._plane
+            if plane.free_indices > 0:
+                plane = cast(PlaneTensor, plane[~e.dependent_values])
+                polygons = PolygonCollection.from_tensor(self[~e.dependent_values])
             if other.free_indices > 0:
                 other = other[~e.dependent_values]
-            result = cast(PlaneTensor, self._plane[~e.dependent_values]).meet(other)
-            return list(result[PolygonCollection.from_tensor(self[~e.dependent_values]).contains(result)])
+            result = plane.meet(other)
+            return list(result[polygons.contains(result)])
         else:
             return list(result[self.contains(result)])
 
